@@ -100,6 +100,20 @@ def check_set(points):
                     out.append((f"C19:qubit-weight:{tag}", f"given {perm}: qubit at {p} gets {wm[f'a{i}']}, trap weight {weights_by_point[p]}"))
             if wm["far"] != 0:
                 out.append((f"C19:qubit-weight-off-trap:{tag}", f"{wm['far']}"))
+            # positions coming from ANOTHER array: displaced by less than the rounding precision (both signs, so that a zero
+            # coordinate is reached from below as -0.0) still sit on the trap; displaced by more they do not
+            for sgn in (1.0, -1.0):
+                near = {f"n{i}": np.array([np.round(v, 6) + sgn * 4e-7 for v in p]) for i, p in enumerate(points)}
+                wn = dm.get_qubit_weight_map(near)
+                for i, p in enumerate(points):
+                    if not math.isclose(wn[f"n{i}"], weights_by_point[p], abs_tol=1e-12):
+                        out.append((f"C19:qubit-weight-near-trap:{tag}", f"qubit {sgn * 4e-7:+.0e} from the trap at {p} gets {wn[f'n{i}']}, trap weight {weights_by_point[p]}"))
+                away = {f"w{i}": np.array([np.round(v, 6) + sgn * 3e-6 for v in p]) for i, p in enumerate(points)}
+                wa = dm.get_qubit_weight_map(away)
+                others = {tuple(np.round(q, 6) + 0.0) for q in points}
+                for i, p in enumerate(points):
+                    if tuple(np.round(away[f"w{i}"], 6) + 0.0) not in others and wa[f"w{i}"] != 0:
+                        out.append((f"C19:qubit-weight-off-trap:{tag}", f"qubit {sgn * 3e-6:+.0e} from the trap at {p} gets {wa[f'w{i}']}"))
             if base is not L and dm != DetuningMap(list(points), [weights_by_point[p] for p in points]):
                 out.append((f"C19:detuning-map-equality-order-dependent:{tag}", f"{perm}"))
     if base is None:
